@@ -1,5 +1,6 @@
 """C01 - calendar date <-> Julian Day bijection (shape S: successor machine +
 lock-step conformance on every state)."""
+import datetime
 import os
 import subprocess
 import tempfile
@@ -74,6 +75,20 @@ def run_walk(block, ctx):
             except Exception:
                 ok = False
                 j = None
+            if ok and d in (1, 15) and yy >= 1960:
+                # read back once with a keyword (UTC conversion) and then plainly again: the plain date of the
+                # object must not remember the converted one
+                try:
+                    e.get_date(utc=True)
+                    e.get_full_date(leap_seconds=20)
+                    g2 = e.get_date()
+                    if g2 != (yy, m, float(d)):
+                        ctx.viol({"y": yy, "m": m, "d": d, "n": n, "prev": prev},
+                                 "get_date() = %r after get_date(utc=True) on the same object, expected %r"
+                                 % (g2, (yy, m, float(d))), site="readback_after_keyword")
+                except Exception as ex:
+                    ctx.viol({"y": yy, "m": m, "d": d, "n": n, "prev": prev},
+                             "keyword read-back raised %r" % ex, site="readback_after_keyword")
             if not ok:
                 msgs = check_day(yy, m, d, n, prev)
                 if not msgs:
@@ -119,6 +134,37 @@ def check_month(y, m, n_first):
             except Exception as ex:
                 out.append(("reject", "Epoch(%d,%d,%d) [%s] raised %r instead of ValueError"
                             % (y, m, dd, ctor, ex)))
+    # the same limits with the day given as a float (a day with decimals is a documented input):
+    # L + 1.0 and L + 1.5 are past the end of the month, L + 0.999 is its last evening
+    for dd in (float(L + 1), L + 1.5, 0.0, 0.5):
+        try:
+            Epoch(y, m, dd)
+            out.append(("reject", "Epoch(%d,%d,%r) accepted, month has %d days" % (y, m, dd, L)))
+        except ValueError:
+            pass
+        except Exception as ex:
+            out.append(("reject", "Epoch(%d,%d,%r) raised %r instead of ValueError" % (y, m, dd, ex)))
+    try:
+        if Epoch(y, m, L + 0.999).jde() != Epoch(y, m, L).jde() + 0.999 and \
+                abs(Epoch(y, m, L + 0.999).jde() - (Epoch(y, m, L).jde() + 0.999)) > 1e-9:
+            out.append(("accept", "Epoch(%d,%d,%r) is not 0.999 day after day %d" % (y, m, L + 0.999, L)))
+    except Exception as ex:
+        out.append(("accept", "Epoch(%d,%d,%r) rejected: %r" % (y, m, L + 0.999, ex)))
+    # first / last day given as a datetime.date (proleptic Gregorian labels: from 1582-10-15 on they are the
+    # civil calendar; before, the library documents that a date object is read as given)
+    if 1 <= y <= 9999:
+        n_last_ = n_first + L - 1 - (10 if (y == 1582 and m == 10) else 0)
+        for dd, nn in ((1, n_first), (L, n_last_)):
+            try:
+                dobj = datetime.date(y, m, dd)
+            except ValueError:
+                continue            # 29 February of a Julian century year has no datetime.date
+            try:
+                j = Epoch(dobj).jde()
+                if j != nn - 0.5:
+                    out.append(("form", "Epoch(date(%d,%d,%d)) = %r, model %r" % (y, m, dd, j, nn - 0.5)))
+            except Exception as ex:
+                out.append(("form", "Epoch(date(%d,%d,%d)) raised %r" % (y, m, dd, ex)))
     # last day must be accepted
     try:
         Epoch(y, m, L)
